@@ -197,6 +197,7 @@ def hyp_search(strategy, prop, seed, max_examples, stats, max_shrinks_s=120):
     from hypothesis import HealthCheck, Phase, given, settings
 
     last = {}
+    shrink_budget_s = 25.0
 
     @hypothesis.seed(seed)
     @settings(max_examples=max_examples, database=None, deadline=None, report_multiple_bugs=False,
@@ -204,10 +205,17 @@ def hyp_search(strategy, prop, seed, max_examples, stats, max_shrinks_s=120):
               print_blob=False, derandomize=False)
     @given(strategy)
     def t(case):
+        # bound the time spent shrinking: once the budget is used up only the best failing case found so far keeps
+        # failing, so Hypothesis stops and replays exactly that case
+        if "t0" in last and time.time() - last["t0"] > shrink_budget_s:
+            if case_hash(case) != last["hash"]:
+                return
         try:
             prop(case, stats)
         except Failure as f:
+            last.setdefault("t0", time.time())
             last["case"] = case
+            last["hash"] = case_hash(case)
             last["why"] = f.why
             last["detail"] = f.detail
             raise
